@@ -1499,12 +1499,14 @@ func ruleExcludeSubpkg(c *Ctx, r *Repo, rule string) {
 			fmt.Fprintf(os.Stderr, "excl path %s calls=%v steps=%v\n", p.String(), p.Calls, p.Steps)
 		}
 		errSeen, errNil, matchSeen, matchVal := false, false, false, false
+		matchExpr := ""
 		for _, a := range p.Atoms {
 			switch {
 			case strings.HasSuffix(a.Expr, "#1 == nil") && (strings.Contains(a.Expr, "regexp.")):
 				errSeen, errNil = true, a.Val
 			case strings.Contains(a.Expr, "MatchString") && !strings.Contains(a.Expr, "== nil"):
 				matchSeen, matchVal = true, a.Val
+				matchExpr = a.Expr
 			default:
 				c.Fail(rule, "ShouldExcludeSubpkg|condition", r.Pos(loop.Pos()), "the loop over the exclusion expressions decides on something other than regexp's answer: "+a.Expr)
 			}
@@ -1525,7 +1527,10 @@ func ruleExcludeSubpkg(c *Ctx, r *Repo, rule string) {
 			c.Check(p.Exit == "return" && len(p.Ret) > 0 && p.Ret[len(p.Ret)-1] != "nil", rule, "ShouldExcludeSubpkg|error", r.Pos(loop.Pos()), "an invalid expression is reported", "an invalid exclusion expression is not reported: "+p.String())
 		case matchSeen && matchVal:
 			nMatchPaths++
-			c.Check(p.Exit == "return" && len(p.Ret) > 0 && p.Ret[0] == "true" && (len(p.Ret) == 1 || p.Ret[len(p.Ret)-1] == "nil"), rule, "ShouldExcludeSubpkg|matched", r.Pos(loop.Pos()), "a matching expression excludes the path", "a path that an exclusion expression matches is not reported as excluded: "+p.String())
+			// "return matched, err" on a path where matched is known to be true says the same
+			last := p.Ret[max(len(p.Ret)-1, 0):]
+			okRet := p.Exit == "return" && len(p.Ret) > 0 && (p.Ret[0] == "true" || p.Ret[0] == matchExpr) && (len(p.Ret) == 1 || last[0] == "nil" || strings.HasSuffix(matchExpr, "#0") && last[0] == strings.TrimSuffix(matchExpr, "#0")+"#1")
+			c.Check(okRet, rule, "ShouldExcludeSubpkg|matched", r.Pos(loop.Pos()), "a matching expression excludes the path", "a path that an exclusion expression matches is not reported as excluded: "+p.String())
 		case matchSeen && !matchVal:
 			c.Check(p.Exit != "return" && p.Exit != "break", rule, "ShouldExcludeSubpkg|unmatched", r.Pos(loop.Pos()), "a non-matching expression leaves the decision to the following ones", "an exclusion expression that does not match ends the search: "+p.String())
 		default:
